@@ -19,7 +19,7 @@ PROP = "C17"
 LEVEL = "exploration"
 TIERS = {
     "quick": dict(runs=2400, timeout=120, max_ops=22, shrink_seconds=90, shrink_steps=300),
-    "thorough": dict(runs=60000, timeout=180, max_ops=40, shrink_seconds=300, shrink_steps=800),
+    "thorough": dict(runs=50000, timeout=180, max_ops=40, shrink_seconds=300, shrink_steps=800),
 }
 
 DIRS = ["", "sub", "sub/deep", "other", "data dir", "sub/ünï"]
